@@ -13,9 +13,15 @@ import (
 // It only exists in builds with the "verif" tag and is used by the
 // verification harness to load many template trees in one process.
 func VerifReset() {
-	userConfig = config.New("templates", ".tw.html", "", false)
+	initial := verifInitialConfig
+	userConfig = &initial
 	customFunc = config.NewFunc()
 }
+
+// verifInitialConfig is a copy of the configuration the package starts
+// with, taken before anything can change it, so that VerifReset restores
+// the real defaults instead of repeating them here.
+var verifInitialConfig = *userConfig
 
 // VerifSnapshot describes the package-level state.
 type VerifSnapshot struct {
